@@ -136,7 +136,17 @@ func c15Sequence(c *sim.Ctx, s []byte) *sim.Violation {
 			return sim.V("C15/agreement/"+class+"/wrong-value", "sequence %x carries %d, decoders say %d", s, want, uv)
 		}
 	} else if class == "terminated" {
-		return sim.V("C15/agreement/terminated/both-reject", "sequence %x is a terminated variable byte integer of at most four bytes but both decoders reject it (%v / %v)", s, uerr, serr)
+		// Only the MINIMAL form of a value must be accepted. A non-minimal form
+		// (80 00 for 0) may be accepted with the value it carries or rejected by
+		// both decoders: C15 demands agreement there, nothing more.
+		var want uint32
+		for k := 0; k <= cont; k++ {
+			want |= uint32(s[k]&0x7f) << (7 * uint(k))
+		}
+		if ref.VarintLen(want) == cont+1 {
+			return sim.V("C15/agreement/terminated/both-reject", "sequence %x is the minimal form of %d but both decoders reject it (%v / %v)", s, want, uerr, serr)
+		}
+		c.Count("sequences.non-minimal-form-rejected-by-both")
 	}
 	return nil
 }
@@ -359,7 +369,7 @@ func runC15(c *sim.Ctx) *sim.Violation {
 	// remaining lengths of the three- and four-byte range through the real encoders
 	// of several packet types (each type may carry its own copy of the encoder):
 	// only the header is kept, the body is counted
-	if c.Run < 12 || t.Bool(1, 40) {
+	if c.Run < 12 || t.Bool(1, 40) || (c.Run >= 12 && c.Run < 14) || (c.Thorough && c.Run >= 14 && c.Run < 20) {
 		e := 21 + t.Int(5) // 2 MiB .. 64 MiB
 		if c.Thorough && t.Bool(1, 6) {
 			e = 26 + t.Int(2)
@@ -374,9 +384,20 @@ func runC15(c *sim.Ctx) *sim.Violation {
 		if target > 268435455 {
 			target = 268435455
 		}
+		forcePub := false
+		if c.Run >= 12 && c.Run < 20 {
+			// the largest remaining lengths MQTT allows: 268 435 455 and the values just below
+			target = 268435455 - []int{0, 4, 1, 2, 3, 5, 6, 127}[c.Run-12]
+			forcePub = true
+			c.Count("probe.largest-remaining-lengths-through-real-encoder")
+		}
 		var p mq.Packet
 		var what string
-		switch t.Int(4) {
+		kind := t.Int(4)
+		if forcePub {
+			kind = 0
+		}
+		switch kind {
 		case 0, 1:
 			pub := mq.NewPublish()
 			pub.SetTopicName("t")
